@@ -40,13 +40,17 @@ Corrections: the model used to require status 200 when If-None-Match matched a p
   ETag match" for any ETag, so this is now an EITHER class (found by a property-preserving change that
   extends the check to program-set ETags; the check flagged it as C02.status).
 
+  Likewise, after an exception that leaves the handler once the header block is out, the body is only
+  required to be a prefix of what was written that covers everything flushed (`raised_after_flush`), not
+  all of it: send_error only promises to "terminate the response".
+
 Findings on the current tree (open, see known_findings.d/C02.json + findings_inbox/C02-*.md):
   F4  HTTP/1.0 keep-alive + flush before finish: close-delimited body, Keep-Alive ack, connection open;
   F5  set_status(204|1xx); write; flush: body bytes behind the bodyless header block;
   new raise Finish whose implicit finish() asserts (204/304/1xx + buffered chunk): request never answered.
 With the three proposed patches applied to a scratch copy the check is quiet with zero excluded cases.
 
-Sensitivity (quick tier, seed 1, each mutant applied alone to a scratch copy of tornado/; all 15 caught):
+Sensitivity (quick tier, seed 1, each mutant applied alone to a scratch copy of tornado/; all 16 caught):
   http1connection.write_headers: `_chunking_output` ignoring HEAD            -> C02.not_well_framed
   http1connection._format_chunk: over-length guard removed                   -> C02.status / C02.body_bytes_after_bodyless_status
   http1connection.finish: terminating zero-length chunk omitted              -> C02.not_well_framed
@@ -73,6 +77,9 @@ Sensitivity (quick tier, seed 1, each mutant applied alone to a scratch copy of 
       (found by independent mutation testing and MISSED while all output ops ran after the request body;
       with the prepare()/method split it is caught at seeds 1, 2, 3 after 413 / 563 / 544 cases, shrunk to
       HTTP/1.0 keep-alive GET + flush() in prepare())
+  web.finish: automatic Content-Length taken from a running byte counter that clear() does not reset (error
+      page after discarded buffered output announces a too large Content-Length)
+                                                                             -> C02.not_well_framed / closed_without_response
   http1connection.write_headers: 205 added to the no-chunking and close-delimited exemptions but not to the
       body-refusing statuses (streamed 205 body undelimited, connection open)   -> C02.close_delimited_body_but_connection_stays_open
       (found by independent mutation testing and MISSED before the status pool was widened: 205 and other
@@ -521,7 +528,14 @@ def run_case(ctx, case):
     for n, _v in r1.headers:
         ctx.check(n.lower() in allowed, "C02.unexpected_header_line", dict(info, name=n))
     # body
-    if method != "HEAD" and not exp.bodyless_status and not exp.error_page:
+    if method != "HEAD" and not exp.bodyless_status and not exp.error_page and exp.body_at_error is not None:
+        # an exception left the handler after the header block was sent: the response can only be terminated;
+        # whether output still buffered at that moment is sent is unspecified (EITHER): a prefix of what was
+        # written that covers everything already flushed
+        labels.add("raised_after_flush")
+        ctx.check(exp.body.startswith(r1.body) and len(r1.body) >= exp.body_at_error, "C02.body_after_error",
+                  dict(info, got_len=len(r1.body), want_len=len(exp.body), flushed=exp.body_at_error))
+    elif method != "HEAD" and not exp.bodyless_status and not exp.error_page:
         ctx.check(r1.body == exp.body, "C02.body", dict(info, got=r1.body[:200], want=exp.body[:200],
                                                        got_len=len(r1.body), want_len=len(exp.body)))
     if exp.error_page and method != "HEAD" and not exp.bodyless_status:
